@@ -28,41 +28,89 @@ def rule_stop_offer(rep):
         atoms.flag("HEAD.position == len(HEAD.input_str)", "at_end")
         atoms.flag("HEAD.position < len(HEAD.input_str)", "at_end", negate=True)
         atoms.flag("HEAD.position >= len(HEAD.input_str)", "at_end")
-        atoms.const("self.custom_token_recognition", False).const("self.lexical_disambiguation", False)
-        space = [dict(stop_in=a, consume=b, at_end=c) for a, b, c in itertools.product((False, True), repeat=3)]
+        atoms.flag("self.custom_token_recognition", "custom").const("self.lexical_disambiguation", False)
+        atoms.add(r"(__at\(\d+, )?self\.custom_token_recognition\(HEAD, get_tokens\)\)? != None", lambda v, m: not v["cnone"])
+        atoms.add(r"(__at\(\d+, )?self\.custom_token_recognition\(HEAD, get_tokens\)\)? == None", lambda v, m: v["cnone"])
+        space = [
+            dict(stop_in=a, consume=b, at_end=c, custom=d, cnone=e)
+            for a, b, c, d, e in itertools.product((False, True), repeat=5) if d or not e
+        ]
 
         def run(atom):
+            lists = []
+
             def eff(st, it):
-                t = plain(st) if not isinstance(st, ast.stmt) else unparse(st)
+                if isinstance(st, ast.FunctionDef) and st.name == "get_tokens":
+                    ok = len(st.body) == 1 and isinstance(st.body[0], ast.Return) and \
+                        re.fullmatch(r"self\._token_recognition\((HEAD|head)\)", plain(it.sub(st.body[0].value)))
+                    return None if ok else ("BAD-GET-TOKENS", unparse(st.body[0])[:60])
                 if isinstance(st, ast.Expr) and isinstance(st.value, ast.Call):
                     c = st.value
                     tx = plain(c)
-                    if re.fullmatch(r"\w+\.append\(STOP_token\)", tx):
+                    m = re.fullmatch(r"(\w+)\.append\(STOP_token\)", tx)
+                    if m:
+                        lists.append(m.group(1))
                         return ("STOP",)
-                    if re.fullmatch(r"\w+\.extend\(self\._token_recognition\(HEAD\)\)", tx):
+                    m = re.fullmatch(r"(\w+)\.extend\(self\._token_recognition\(HEAD\)\)", tx)
+                    if m:
+                        lists.append(m.group(1))
                         return ("SCAN",)
+                    m = re.fullmatch(r"self\._token_recognition\(HEAD, (\w+)\)", tx)
+                    if m:  # the scanner appends to the caller's list (see the own-list obligation below)
+                        lists.append(m.group(1))
+                        return ("SCAN",)
+                    m = re.fullmatch(r"(\w+)\.extend\(self\.custom_token_recognition\(HEAD, get_tokens\)\)", tx)
+                    if m:
+                        lists.append(m.group(1))
+                        return ("CUSTOM",)
                 return NotImplemented
             it = Interp(atom, eff, env={head: N("HEAD")})
             ex = it.run(f.body)
-            return list(it.effects), ex
+            return list(it.effects), ex, list(lists)
 
         for leaf in explore(run, space, atoms):
-            effs, ex = leaf.result
+            effs, ex, lists = leaf.result
+            ret = plain(ex.value) if ex.value is not None else None
             for v in leaf.valuations:
                 exp = []
                 if v["stop_in"] and (not v["consume"] or v["at_end"]):
                     exp.append(("STOP",))
                 if not v["at_end"]:
-                    exp.append(("SCAN",))
+                    if not v["custom"]:
+                        exp.append(("SCAN",))
+                    elif not v["cnone"]:
+                        exp.append(("CUSTOM",))
+                same_list = len(set(lists)) <= 1 and (not lists or ret == lists[0])
                 r.check(
-                    effs == exp and ex.kind == "return",
+                    effs == exp and ex.kind == "return" and same_list,
                     "STOP offering row " + describe(v),
-                    "_next_tokens:" + ("stop" if ("STOP",) in exp else "no-stop"),
-                    f"for {describe(v)}: the token list gets {[e[0] for e in effs]}; documented "
-                    f"{[e[0] for e in exp]} (STOP must be offered next to real tokens whenever the input "
+                    "_next_tokens:" + ("stop" if ("STOP",) in exp else "no-stop") + (":custom" if v["custom"] else ""),
+                    f"for {describe(v)}: the token list gets {[e[0] for e in effs]}"
+                    + ("" if same_list else f" (collected in {sorted(set(lists))}, returned `{ret}`)")
+                    + f"; documented {[e[0] for e in exp]} (STOP must be offered next to real tokens whenever the input "
                     "need not be consumed, and only at the end otherwise)" + leaf.free_text(),
                     node=f.node,
                 )
+        # the scanner's priority cut-off looks at the tokens *it* found, not at a list handed in
+        tr = rep.repo.func("parglare.parser.Parser._token_recognition")
+        brk = [
+            n for n in walk_no_nested(tr.node)
+            if isinstance(n, ast.If) and any(isinstance(b, ast.Break) for b in n.body) and "prior" in unparse(n.test)
+        ]
+        r.need(len(brk) == 1, "_token_recognition: priority cut-off not found")
+        names = {n.id for n in ast.walk(brk[0].test) if isinstance(n, ast.Name)} - {"symbol", "last_prior"}
+        for nm in sorted(names):
+            top = [st for st in tr.body if isinstance(st, ast.Assign) and any(is_name(t, nm) for t in st.targets)]
+            fresh = bool(top) and isinstance(top[0].value, ast.List) and not top[0].value.elts and nm not in tr.params
+            r.check(
+                fresh,
+                f"_token_recognition: `{nm}` in the priority cut-off is the scanner's own, initially empty list",
+                "_token_recognition:own-list",
+                f"the priority cut-off of _token_recognition tests `{nm}`, which is not unconditionally the scanner's "
+                "own fresh list: a STOP token (or anything else) already in it makes the scan stop after the first "
+                "priority class although nothing matched",
+                node=brk[0],
+            )
         st = rep.repo.module("parglare.parser").globals_assigned.get("STOP_token")
         r.check(st is not None and unparse(st.value) == "Token(STOP, '', None)", "STOP token is empty",
                 "STOP_token", "the STOP pseudo token changed", node=st)
@@ -315,3 +363,6 @@ def check(rep):
     from .C08 import rule_roles_glr
 
     rule_roles_glr(rep)
+    from .C02 import rule_revisit
+
+    rule_revisit(rep)  # per-lookahead sub-frontiers (STOP next to a real token) each need a fresh revisit cache
